@@ -198,7 +198,16 @@ class Resolver:
             return E("local", l)
         fn = self.fn
         ds = fn.whole_defs(l)
-        all_ds = fn.defs.get(l, [])
+        # writes through the pointer held in l ((*_l).f = …) do not redefine l itself
+        all_ds = []
+        for d in fn.defs.get(l, []):
+            if d[0] == "stmt":
+                dst = d[3].get("dst") or d[3].get("place")
+                if dst["proj"] and "deref" in dst["proj"][0]:
+                    continue
+            elif d[0] == "call" and d[2].dst["proj"] and "deref" in d[2].dst["proj"][0]:
+                continue
+            all_ds.append(d)
         if len(ds) == 1 and len(all_ds) == 1:
             self.memo[l] = E("local", l)  # cycle guard
             e = self.definition(ds[0], l, depth + 1)
